@@ -28,6 +28,8 @@
 From Coq Require Import NArith ZArith List Bool Arith.
 From PLV Require Import Base.PyStr Tok.Tokenizer Parse.Nodes Parse.Parser L2T.L2T.
 From PLV Require Import Proofs.L2TUnfold Proofs.L2TFilters Proofs.L2TFiltersCover.
+From PLV Require Import L2T.L2TWire Doc.DocGrammar Proofs.ComposePos Proofs.ComposeComments.
+From PLV Require Import Proofs.ComposeRel Proofs.ComposeCommentsV.
 From PLV Require Gen.GenWalkerCtx Gen.GenL2TCtx.
 Import ListNotations.
 
@@ -389,3 +391,195 @@ Section Examples.
        = [97; 10; 98; 10; 120; 10; 32; 32; 32; 32; 121; 10]%N.
   Proof. split; vm_compute; reflexivity. Qed.
 End Examples.
+
+(** * Source level (composition with C02): [C12_source_level]
+
+    The theorems above are about TREES.  [Properties/C02.v:
+    C02_parse_unparse_partial] says which tree the strict parser returns for a
+    written document of the core grammar ([Doc/DocGrammar.v]: text, groups,
+    macros with mandatory braced arguments, inline / display math, comments,
+    paragraph breaks; [ok_doc] = the side conditions that make the written form
+    unambiguous).  Composed:
+
+    two documents [d], [d'] of that grammar that differ ONLY in the text of their
+    comments ([same_but_comments]: same items, same whitespace fields, same
+    comment post-space; comments at any depth — in groups, macro arguments,
+    formulas) are converted to the SAME text (and document state) by
+    [latex_to_text] with the default databases whenever [keep_comments] is off
+    and the math mode is 'text', 'with-delimiters' or 'remove'.
+
+    With [math_mode='verbatim'] the statement is false for comments inside a
+    formula (the formula's source is reproduced, second clause of the property;
+    see [C12_source_level_nonvacuous]); that mode is excluded here.
+
+    The glue between the two properties is [C12_positions_irrelevant]: the
+    comment texts have different lengths, so every later position (and the
+    source string) differs between the two trees — outside verbatim mode the
+    renderer reads neither.
+
+    PARTIAL: the core grammar of C02 only (no environments, optional / star
+    arguments, specials other than the paragraph break, [$$..$$], verbatim).
+    The verbatim math mode, with the exclusion of comments inside formulas, is
+    [C12_source_level_all_modes_partial] below. *)
+
+(** [repos n] = [n] with every position zeroed *)
+Theorem C12_positions_irrelevant : forall src src' lt cx o,
+  o_math o <> MMVerbatim ->
+  forall n sl st, node_text src' lt cx o sl st (repos n) = node_text src lt cx o sl st n.
+Proof. exact repos_text. Qed.
+Print Assumptions C12_positions_irrelevant.
+
+(** the meanings of the two documents are equal up to positions and comment
+    texts ([E] = [repos] then every comment text replaced by the empty string):
+    any context, any parsing state, any offsets *)
+Theorem C12_trees_same_but_comments : forall cx ps pos pos' d d',
+  same_but_comments d d' ->
+  map (fun x => match x with Some c => Some (map_comment_text (fun _ => []) (repos c)) | None => None end)
+      (fst (tree_of cx ps pos d))
+  = map (fun x => match x with Some c => Some (map_comment_text (fun _ => []) (repos c)) | None => None end)
+        (fst (tree_of cx ps pos' d')).
+Proof. exact tree_sbc. Qed.
+Print Assumptions C12_trees_same_but_comments.
+
+Theorem C12_source_level_partial : forall o d d',
+  same_but_comments d d' ->
+  ok_doc Gen.GenWalkerCtx.default_ctx d = true -> ok_doc Gen.GenWalkerCtx.default_ctx d' = true ->
+  o_keep_comments o = false -> o_math o <> MMVerbatim ->
+  exists r, latex_to_text o (unparse d) false = Some r /\ latex_to_text o (unparse d') false = Some r.
+Proof. exact source_level. Qed.
+Print Assumptions C12_source_level_partial.
+
+(** non-vacuity: [a %SEC\n\textbf{b%INN\n }  $x %MC\ny$\n\nz\n] and the same document with the
+    comment texts [XXXXXX], (empty), [Q{$]: different sources, both satisfy the side
+    conditions, same output [a \nb\n x \ny\n\nz\n]; with [keep_comments] the outputs differ, and
+    in verbatim mode they differ too (the comment inside the formula is reproduced) *)
+Section SourceExample.
+  Open Scope N_scope.
+  Let mkd (c1 c2 c3 : str) : doc :=
+    {| d_items :=
+         [Text [] [97];
+          Cmt [32] c1 [10];
+          Mac [] [116;101;120;116;98;102] [] [Grp [] [Text [] [98]; Cmt [] c2 [10; 32]] []];
+          Math [32] MDollar [Text [] [120]; Cmt [32] c3 [10]; Text [] [121]] [];
+          Par [] [];
+          Text [] [122]];
+       d_trail := [10] |}.
+  Let dA := mkd [83;69;67] [73;78;78] [77;67].
+  Let dB := mkd [88;88;88;88;88;88] [] [81;123;36].
+  Let o_of (mm : mathmode) (kc : bool) : opts :=
+    {| o_math := mm; o_keep_comments := kc; o_sls := sls_bos; o_kbg := false; o_kbg_minlen := 0 |}.
+  Example C12_source_level_nonvacuous :
+    same_but_comments dA dB
+    /\ ok_doc Gen.GenWalkerCtx.default_ctx dA = true /\ ok_doc Gen.GenWalkerCtx.default_ctx dB = true
+    /\ unparse dA <> unparse dB
+    /\ option_map fst (latex_to_text (o_of MMText false) (unparse dA) false)
+       = Some [97; 32; 10; 98; 10; 32; 120; 32; 10; 121; 10; 10; 122; 10]
+    /\ latex_to_text (o_of MMText false) (unparse dA) false = latex_to_text (o_of MMText false) (unparse dB) false
+    /\ latex_to_text (o_of MMWithDelims false) (unparse dA) false
+       = latex_to_text (o_of MMWithDelims false) (unparse dB) false
+    /\ latex_to_text (o_of MMText true) (unparse dA) false <> latex_to_text (o_of MMText true) (unparse dB) false
+    /\ latex_to_text (o_of MMVerbatim false) (unparse dA) false
+       <> latex_to_text (o_of MMVerbatim false) (unparse dB) false.
+  Proof.
+    split; [unfold same_but_comments; cbn; repeat split|].
+    split; [vm_compute; reflexivity|]. split; [vm_compute; reflexivity|].
+    split; [vm_compute; discriminate|]. split; [vm_compute; reflexivity|].
+    assert (W : same_but_comments dA dB) by (unfold same_but_comments; cbn; repeat split).
+    split; [|split; [|split]].
+    - assert (H : exists r, latex_to_text (o_of MMText false) (unparse dA) false = Some r
+                            /\ latex_to_text (o_of MMText false) (unparse dB) false = Some r)
+        by (apply C12_source_level_partial;
+            [exact W | vm_compute; reflexivity | vm_compute; reflexivity | reflexivity | discriminate]).
+      destruct H as (r & A & B). congruence.
+    - assert (H : exists r, latex_to_text (o_of MMWithDelims false) (unparse dA) false = Some r
+                            /\ latex_to_text (o_of MMWithDelims false) (unparse dB) false = Some r)
+        by (apply C12_source_level_partial;
+            [exact W | vm_compute; reflexivity | vm_compute; reflexivity | reflexivity | discriminate]).
+      destruct H as (r & A & B). congruence.
+    - vm_compute. discriminate.
+    - vm_compute. discriminate.
+  Qed.
+End SourceExample.
+
+(** * Source level, ALL math modes (verbatim included)
+
+    With [math_mode='verbatim'] the source of a formula is reproduced, comments
+    written inside it included (second clause of the property).  Excluding those:
+    [same_but_comments_outside_math d d'] = same items, same whitespace, comment
+    texts free EXCEPT that formulas ([Math] items) are identical.  Then the two
+    documents are converted to the same text for EVERY option record with
+    [keep_comments] off — all four math modes.
+
+    The tree-level glue is the relational form of non-interference,
+    [C12_relational]: [vrel src src' kc vb n n'] ([Proofs/ComposeRel.v]) relates
+    two trees of the same shape that agree on everything the renderer reads
+    (characters, names, delimiters, post-spaces, argument specs; comment texts
+    only if [kc]; the source slices [slice src p e] / [slice src' p' e'] of
+    formulas and environments only if [vb]) — positions, recorded modes and the
+    two source strings are otherwise unrelated.  It subsumes
+    [C12_positions_irrelevant] and [C12_comments_erased]. *)
+Theorem C12_relational : forall src src' lt cx o n n',
+  vrel src src' (o_keep_comments o) (match o_math o with MMVerbatim => true | _ => false end) n n' ->
+  forall sl st, node_text src lt cx o sl st n = node_text src' lt cx o sl st n'.
+Proof. exact vrel_text. Qed.
+Print Assumptions C12_relational.
+
+(** the meanings of the two documents are related: same shape and characters,
+    and the source slice of every formula is its written form in both sources
+    (any context, any parsing state) *)
+Theorem C12_trees_same_but_comments_outside_math : forall cx vb ps d d',
+  same_but_comments_outside_math d d' ->
+  ok_doc cx d = true -> ok_doc cx d' = true ->
+  vall2 (unparse d) (unparse d') false vb (fst (tree_of cx ps 0 d)) (fst (tree_of cx ps 0 d')).
+Proof.
+  intros cx vb ps d d' W O O'.
+  exact (tree_sbcv cx (unparse d) (unparse d') vb ps d d' W (ok_doc_nows cx d O) (ok_doc_nows cx d' O') eq_refl eq_refl).
+Qed.
+Print Assumptions C12_trees_same_but_comments_outside_math.
+
+Theorem C12_source_level_all_modes_partial : forall o d d',
+  same_but_comments_outside_math d d' ->
+  ok_doc Gen.GenWalkerCtx.default_ctx d = true -> ok_doc Gen.GenWalkerCtx.default_ctx d' = true ->
+  o_keep_comments o = false ->
+  exists r, latex_to_text o (unparse d) false = Some r /\ latex_to_text o (unparse d') false = Some r.
+Proof. exact source_level_all_modes. Qed.
+Print Assumptions C12_source_level_all_modes_partial.
+
+(** non-vacuity: [a %SEC\n\textbf{b%INN\n }  $x y\text{p%Q\n}$\n\nz\n] vs. the same with other comment texts
+    at top level and in the [\textbf] argument (the formula, which contains a comment inside a [\text]
+    argument, is identical): same output in verbatim mode *)
+Section SourceExampleV.
+  Open Scope N_scope.
+  Let mkd (c1 c2 : str) : doc :=
+    {| d_items :=
+         [Text [] [97];
+          Cmt [32] c1 [10];
+          Mac [] [116;101;120;116;98;102] [] [Grp [] [Text [] [98]; Cmt [] c2 [10; 32]] []];
+          Math [32] MDollar [Text [] [120]; Text [32] [121];
+                             Mac [] [116;101;120;116] [] [Grp [] [Text [] [112]; Cmt [] [81] [10]] []]] [];
+          Par [] [];
+          Text [] [122]];
+       d_trail := [10] |}.
+  Let dA := mkd [83;69;67] [73;78;78].
+  Let dB := mkd [88;88;88;88;88;88] [].
+  Let o_of (mm : mathmode) : opts :=
+    {| o_math := mm; o_keep_comments := false; o_sls := sls_bos; o_kbg := false; o_kbg_minlen := 0 |}.
+  Example C12_source_level_all_modes_nonvacuous :
+    same_but_comments_outside_math dA dB
+    /\ ok_doc Gen.GenWalkerCtx.default_ctx dA = true /\ ok_doc Gen.GenWalkerCtx.default_ctx dB = true
+    /\ unparse dA <> unparse dB
+    /\ option_map fst (latex_to_text (o_of MMVerbatim) (unparse dA) false)
+       = Some [97; 32; 10; 98; 10; 32; 36; 120; 32; 121; 92; 116; 101; 120; 116; 123; 112; 37; 81; 10; 125; 36;
+               10; 10; 122; 10]
+    /\ latex_to_text (o_of MMVerbatim) (unparse dA) false = latex_to_text (o_of MMVerbatim) (unparse dB) false.
+  Proof.
+    assert (W : same_but_comments_outside_math dA dB) by (unfold same_but_comments_outside_math; cbn; repeat split).
+    split; [exact W|]. split; [vm_compute; reflexivity|]. split; [vm_compute; reflexivity|].
+    split; [vm_compute; discriminate|]. split; [vm_compute; reflexivity|].
+    assert (H : exists r, latex_to_text (o_of MMVerbatim) (unparse dA) false = Some r
+                          /\ latex_to_text (o_of MMVerbatim) (unparse dB) false = Some r)
+      by (apply C12_source_level_all_modes_partial;
+          [exact W | vm_compute; reflexivity | vm_compute; reflexivity | reflexivity]).
+    destruct H as (r & A & B). congruence.
+  Qed.
+End SourceExampleV.
